@@ -34,6 +34,7 @@ from __future__ import annotations
 import asyncio
 import contextvars
 import copy
+import itertools
 import json
 import re
 
@@ -78,8 +79,17 @@ FUNCTIONS["resl"] = ("rf", {
     "return": {"got": "=inputs"}})
 
 
-def stored_gadget(name):
-    return {"apiVersion": "example.dev/v1", "kind": "Gadget", "metadata": {"name": name, "namespace": NS},
+_gadget_counter = itertools.count()
+
+
+def canon_kinds(obs):
+    """the kind of `resl` is fresh in every run (Gad<N>: kr8s keeps the looked-up plural on a process-wide class, so
+    only a new kind makes the lookup cold); observations name it Gadget / gadgets"""
+    return json.loads(re.sub(r"Gad\d+", "Gadget", re.sub(r"gad\d+s", "gadgets", json.dumps(obs))))
+
+
+def stored_gadget(name, kind="Gadget"):
+    return {"apiVersion": "example.dev/v1", "kind": kind, "metadata": {"name": name, "namespace": NS},
             "spec": {"tag": "static"}}
 
 
@@ -337,7 +347,11 @@ async def realise(sc) -> Real:
     from koreo.workflow.structure import Workflow
     from koreo.workflow.prepare import prepare_workflow
     r = Real()
+    r.gadget_kind = f"Gad{next(_gadget_counter)}"
     for name, (kind, spec) in FUNCTIONS.items():
+        if name == "resl":
+            spec = copy.deepcopy(spec)
+            spec["apiConfig"]["kind"] = r.gadget_kind
         cls, prep = (ValueFunction, prepare_value_function) if kind == "vf" else (ResourceFunction, prepare_resource_function)
         p = await cache.prepare_and_cache(cls, prep, {"name": name, "resourceVersion": "1"}, copy.deepcopy(spec))
         assert isinstance(p, cls), f"library function {name} did not prepare: {p!r}"
@@ -394,7 +408,7 @@ class TCluster(Cluster):
         base = kind.split(".")[0]
         rec = {"kind": base, "path": PATH.get()}
         self.lookup_calls.append(rec)
-        d = self.lat.get((base, "LOOKUP"))
+        d = self.lat.get((re.sub(r"Gad\d+", "Gadget", base), "LOOKUP"))
         if d:
             await asyncio.sleep(d)
         rec["done_at"] = asyncio.get_event_loop().time()
@@ -562,7 +576,7 @@ def run(sc, lat=None, virtual=True):
         cluster = TCluster(lat=lat)
         for n in sc.get("existing", []):
             cluster.put(stored_widget(n), plural="widgets")
-            cluster.put(stored_gadget(n), plural="gadgets")
+            cluster.put(stored_gadget(n, real.gadget_kind), plural=real.gadget_kind.lower() + "s")
         before = cluster.snapshot()
         rec = Recorder(real)
         entry = rec.install()
@@ -600,7 +614,7 @@ def run(sc, lat=None, virtual=True):
                 "objects_after": cluster.snapshot()}
 
     try:
-        return drivers.run_async(go(), virtual=virtual)
+        return canon_kinds(drivers.run_async(go(), virtual=virtual))
     finally:
         drivers.reset_all()
 
